@@ -17,13 +17,16 @@ def jobs_for(ctx):
     # the same family under big-magnitude embeddings (|coordinate| up to 2^61)
     for k in range(4 if q else 16):
         add("plain" if k % 2 == 0 else "hi", fam="gps", n=8 if q else 60, emb="1,2,3,4,6,7", npts=160, cfg="notree", seed=s * 1000 + 500 + k, R=48)
+    # scales at which the whole input spans 2^31 .. 2^33 (boundary values of 32-bit differences and of 64-bit products)
+    for k in range(4 if q else 16):
+        add("plain" if k % 2 == 0 else "hi", fam="gps", n=10 if q else 60, emb="8,9", npts=160, cfg="notree", seed=s * 1000 + 600 + k, R=[64, 48][k % 2])
     # big-magnitude embeddings again, now with unrelated small triangles whose vertices sit a few units above / below the y of an edge crossing
     for k in range(10 if q else 32):
         add("plain" if k % 2 == 0 else "hi", fam="gps", n=30 if q else 120, emb="4,7" if k % 5 else "3,6", npts=140, cfg="notree", xtra=1, seed=s * 1000 + 900 + k, R=48)
     return J
 
 RULE = ("inputs: winding ladder (all 49 (ws,wc) pairs, 2 shapes) + random general-position polygons (TLC-certified GP, "
-        "coordinates < 64, self-intersecting allowed) under 7 affine embeddings (offsets up to 2^61, scales up to 2^54 so that coordinate differences exceed 2^31 and 2^59); each input run with 4 clip types x 4 fill "
+        "coordinates < 64, self-intersecting allowed) under 9 affine embeddings (offsets up to 2^61, scales 2^26, 2^27, 2^30, 2^54 so that coordinate differences straddle 2^31 / 2^32 and exceed 2^59); each input run with 4 clip types x 4 fill "
         "rules x PreserveCollinear x ReverseSolution (+NoClip) on builds plain and CLIPPER2_HI_PRECISION; a case is non-trivial/distinct "
         "when the library returned a non-empty solution with distinct content for a distinct (input, embedding)")
 
